@@ -1,6 +1,7 @@
 """C03 — Backend circuit conversion preserves circuit semantics."""
 from __future__ import annotations
 
+import cmath
 import io
 import math
 import os
@@ -79,6 +80,8 @@ def circ_unitary(n, gs):
     for g in gs:
         if g.name == "Measurement":
             continue
+        if g.name in ("Pauli", "PauliRotation") and (len(g.pauli_ids) != len(g.target_indices) or any(p not in (0, 1, 2, 3) for p in g.pauli_ids)):
+            raise ValueError(f"{g.name} with targets {tuple(g.target_indices)} and pauli_ids {tuple(g.pauli_ids)}")
         if g.name == "ECR":
             u = dense.embed(n, list(g.target_indices), ecr_matrix()) @ u
         else:
@@ -1126,33 +1129,39 @@ def run(ctx: Ctx, replay=None) -> int:
 # ---------------------------------------------------------------------------
 NATIVE = {
     "qulacs": ["I", "X", "Y", "Z", "H", "S", "Sdag", "T", "Tdag", "sqrtX", "sqrtXdag", "sqrtY", "sqrtYdag", "RX", "RY", "RZ", "U1", "U2", "U3",
-               "CNOT", "CZ", "SWAP", "TOFFOLI", "dense1", "dense2", "cdense", "ccx_dense", "pauli", "paulirot", "FREDKIN", "P0"],
+               "CNOT", "CZ", "SWAP", "TOFFOLI", "dense1", "dense2", "cdense", "ccx_dense", "pauli", "paulirot", "FREDKIN", "P0",
+               # the full legal input space of Qulacs' multi-Pauli gates (not only what convert_circuit emits): any width incl. 0,
+               # identity factors (pauli_id 0) at any position, built through the circuit methods or as gate objects
+               "paulis", "paulirots", "paulis", "paulirots"],
     "qiskit": ["h", "x", "y", "z", "s", "sdg", "t", "tdg", "sx", "sxdg", "id", "rx", "ry", "rz", "p", "u", "u1", "u2", "u3", "cx", "cz", "swap",
-               "ecr", "ccx", "unitary1", "unitary2", "unitary3", "cy", "ch", "crx", "rzz", "iswap", "ccz", "cswap", "cx_o0", "ccx_o"],
+               "ecr", "ccx", "unitary1", "unitary2", "unitary3", "cy", "ch", "crx", "rzz", "iswap", "ccz", "cswap", "cx_o0", "ccx_o",
+               "pauli_label", "pauli_evolution", "gphase"],
     "cirq": ["H", "X", "Y", "Z", "S", "T", "Sdag", "SqrtX", "SqrtXdag", "SqrtY", "Tdag", "rx", "ry", "rz", "CNOT", "CZ", "SWAP", "TOFFOLI",
              "ISWAP", "matrix1", "matrix2", "XPow", "YPow", "ZPow", "CCZ",
              # other spellings of the named gates: powers Cirq regards as EQUAL to the gate (what cirq.inverse / op**-1 / gate**3 leave behind)
              "Hpow", "CNOTpow", "CZpow", "SWAPpow", "TOFFOLIpow", "CCZpow", "ISWAPpow", "X.controlled",
              # qubit-symmetric gates of the generic branch, and gates of the generic branch that are not symmetric (see key cirq.native-reverse.generic)
-             "CZfrac", "generic:CXPow-fractional", "generic:CY", "generic:CX-open-control", "generic:CSWAP"],
+             "CZfrac", "generic:CXPow-fractional", "generic:CY", "generic:CX-open-control", "generic:CSWAP", "generic:PauliString",
+             "gphase", "IdentityGate"],
     "braket": ["h", "x", "y", "z", "s", "si", "t", "ti", "v", "vi", "rx", "ry", "rz", "phaseshift", "u", "u", "cnot", "cz", "swap", "ccnot",
-               "unitary1", "unitary2", "unitary3", "iswap", "cy", "modifier:control", "modifier:neg-control", "modifier:power"],
+               "unitary1", "unitary2", "unitary3", "iswap", "cy", "modifier:control", "modifier:neg-control", "modifier:power", "gphase"],
     "tket": ["H", "X", "Y", "Z", "S", "Sdg", "T", "Tdg", "SX", "SXdg", "noop", "Rx", "Ry", "Rz", "U1", "U2", "U3", "CX", "CZ", "SWAP", "CCX", "CY",
-             "Unitary1qBox", "Unitary2qBox", "Unitary3qBox"],
+             "Unitary1qBox", "Unitary2qBox", "Unitary3qBox", "PauliExpBox", "phase"],
 }
+VARIABLE_WIDTH = {"paulis", "paulirots", "pauli_label", "pauli_evolution", "generic:PauliString", "PauliExpBox", "IdentityGate"}
 ARITY2 = {"CNOT", "CZ", "SWAP", "dense2", "cdense", "pauli", "paulirot", "cx", "cz", "swap", "cy", "ch", "unitary2", "ISWAP", "matrix2",
           "cnot", "iswap", "CX", "CY", "ecr", "crx", "rzz", "Unitary2qBox", "modifier:control", "modifier:neg-control",
           "CNOTpow", "CZpow", "SWAPpow", "ISWAPpow", "X.controlled", "CZfrac", "generic:CXPow-fractional", "generic:CY", "generic:CX-open-control", "cx_o0"}
 ARITY3 = {"TOFFOLI", "ccx", "ccnot", "CCX", "ccx_dense", "unitary3", "ccz", "cswap", "CCZ", "Unitary3qBox", "FREDKIN", "TOFFOLIpow", "CCZpow", "generic:CSWAP", "ccx_o"}
-NPAR = {"RX": 1, "RY": 1, "RZ": 1, "U1": 1, "U2": 2, "U3": 3, "paulirot": 1, "rx": 1, "ry": 1, "rz": 1, "p": 1, "u": 3, "phaseshift": 1,
+NPAR = {"paulirots": 1, "pauli_evolution": 1, "gphase": 1, "phase": 1, "PauliExpBox": 1, "RX": 1, "RY": 1, "RZ": 1, "U1": 1, "U2": 2, "U3": 3, "paulirot": 1, "rx": 1, "ry": 1, "rz": 1, "p": 1, "u": 3, "phaseshift": 1,
         "Rx": 1, "Ry": 1, "Rz": 1, "u1": 1, "u2": 2, "u3": 3, "crx": 1, "rzz": 1, "modifier:neg-control": 1}
 # native gates the reverse adapters do not take (reference tree): an error, as the property asks
-NATIVE_REJECTED = {"braket": {"iswap", "cy"}, "tket": {"CY"}, "qulacs": {"FREDKIN", "dense2", "P0"}}  # dense2: see note_once in judge()
+NATIVE_REJECTED = {"braket": {"iswap", "cy", "gphase"}, "tket": {"CY", "PauliExpBox"}, "qulacs": {"FREDKIN", "dense2", "P0"}}  # dense2: see note_once in judge()
 # native gates with a listed finding (or refused) on the reference tree: kept out of the adjoint-circuit runs
 NATIVE_KNOWN_BAD = {
-    "cirq": {"matrix2", "generic:CXPow-fractional", "generic:CY", "generic:CX-open-control", "generic:CSWAP"},
-    "tket": {"Unitary2qBox", "Unitary3qBox", "CY"},
-    "braket": {"modifier:control", "modifier:neg-control", "modifier:power", "iswap", "cy"},
+    "cirq": {"matrix2", "generic:CXPow-fractional", "generic:CY", "generic:CX-open-control", "generic:CSWAP", "generic:PauliString"},
+    "tket": {"Unitary2qBox", "Unitary3qBox", "CY", "PauliExpBox"},
+    "braket": {"modifier:control", "modifier:neg-control", "modifier:power", "iswap", "cy", "gphase"},
     "qulacs": {"cdense", "dense1", "dense2", "FREDKIN", "P0", "U1", "U2", "U3"},
     "qiskit": {"iswap"},
 }
@@ -1175,11 +1184,21 @@ def native_specs(backend, rng, n, k):
     for _ in range(k):
         g = rng.choice(NATIVE[backend])
         ar = 3 if g in ARITY3 else 2 if g in ARITY2 else 1
+        if g in VARIABLE_WIDTH:
+            ar = rng.randint(0 if g in ("paulis", "paulirots") else 1, n)
+        elif g in ("gphase", "phase"):
+            ar = 0
         if ar > n:
             continue
         q = rng.sample(range(n), ar)
         ps = [ang() for _ in range(NPAR.get(g, 0))]
         extra = None
+        if g in VARIABLE_WIDTH and g != "IdentityGate":
+            # Pauli strings with identity factors at any position (also all-identity); half of the time at least one identity
+            ids = [rng.randint(0, 3) for _ in q]
+            if ids and rng.random() < 0.5:
+                ids[rng.randrange(len(ids))] = 0
+            extra = (ids, rng.random() < 0.5)
         if g in ("XPow", "YPow", "ZPow", "modifier:power"):
             ps = [rng.choice([0.5, -0.5, 1.0, 1.5, -1.5, 0.25, -0.25, 1.75, 2.0, 3.0, round(rng.uniform(-2, 2), 3)])]
         elif g.endswith("pow"):  # exponents under which the gate equals itself (odd; for ISWAP 1 mod 4)
@@ -1228,6 +1247,11 @@ def build_native(backend, n, specs):
                 c.add_gate(qulacs.gate.Identity(q[0]))
             elif g == "P0":  # a projection: nothing quri-parts can express, the adapter has to refuse it
                 c.add_gate(qulacs.gate.P0(q[0]))
+            elif g == "paulis":
+                c.add_gate(qulacs.gate.Pauli(list(q), extra[0])) if extra[1] else c.add_multi_Pauli_gate(list(q), extra[0])
+            elif g == "paulirots":
+                (c.add_gate(qulacs.gate.PauliRotation(list(q), extra[0], ps[0])) if extra[1]
+                 else c.add_multi_Pauli_rotation_gate(list(q), extra[0], ps[0]))
             elif g == "pauli":
                 c.add_multi_Pauli_gate([q[0], q[1]], extra)
             elif g == "paulirot":
@@ -1252,6 +1276,14 @@ def build_native(backend, n, specs):
                 getattr(c, g)(q[0], q[1])
             elif g in ("ccx", "ccz", "cswap"):
                 getattr(c, g)(q[0], q[1], q[2])
+            elif g == "pauli_label":  # label position k from the right <-> k-th qubit argument
+                c.append(L.PauliGate("".join("IXYZ"[i] for i in reversed(extra[0]))), list(q))
+            elif g == "pauli_evolution":
+                from qiskit.quantum_info import SparsePauliOp
+
+                c.append(L.PauliEvolutionGate(SparsePauliOp("".join("IXYZ"[i] for i in reversed(extra[0]))), time=ps[0] / 2), list(q))
+            elif g == "gphase":
+                c.append(L.GlobalPhaseGate(ps[0]), [])
             elif g == "cx_o0":  # open control: a different gate under a name that starts like cx
                 c.cx(q[0], q[1], ctrl_state=0)
             elif g == "ccx_o":
@@ -1293,6 +1325,12 @@ def build_native(backend, n, specs):
                 ops.append(cirq.X.controlled(control_values=[0]).on(qs[q[0]], qs[q[1]]))
             elif g == "generic:CSWAP":
                 ops.append(cirq.CSWAP.on(qs[q[0]], qs[q[1]], qs[q[2]]))
+            elif g == "generic:PauliString":
+                ops.append(cirq.DensePauliString("".join("IXYZ"[i] for i in extra[0])).on(*[qs[i] for i in q]))
+            elif g == "gphase":
+                ops.append(cirq.global_phase_operation(cmath.exp(1j * ps[0])))
+            elif g == "IdentityGate":
+                ops.append(cirq.IdentityGate(len(q)).on(*[qs[i] for i in q]))
             else:
                 ops.append(cirq.MatrixGate(extra).on(*[qs[i] for i in q]))
         ops.append(cirq.I.on(qs[n - 1]))  # keep the register size recoverable
@@ -1314,6 +1352,8 @@ def build_native(backend, n, specs):
                 c.ccnot(q[0], q[1], q[2])
             elif g in ("unitary1", "unitary2", "unitary3"):
                 c.unitary(matrix=extra, targets=list(q))
+            elif g == "gphase":
+                c.gphase(ps[0])
             elif g == "modifier:control":
                 c.x(q[1], control=[q[0]])
             elif g == "modifier:neg-control":
@@ -1330,7 +1370,14 @@ def build_native(backend, n, specs):
 
         c = Circuit(n)
         for g, q, ps, extra in specs:
-            if g == "Unitary1qBox":
+            if g == "PauliExpBox":
+                from pytket.circuit import PauliExpBox
+                from pytket.pauli import Pauli
+
+                c.add_pauliexpbox(PauliExpBox([[Pauli.I, Pauli.X, Pauli.Y, Pauli.Z][i] for i in extra[0]], ps[0] / math.pi), list(q))
+            elif g == "phase":
+                c.add_phase(ps[0] / math.pi)
+            elif g == "Unitary1qBox":
                 c.add_unitary1qbox(Unitary1qBox(extra), q[0])
             elif g == "Unitary2qBox":
                 c.add_unitary2qbox(Unitary2qBox(extra), q[0], q[1])
@@ -1389,7 +1436,8 @@ def validate_native_reverse(ctx: Ctx, rounds: int):
 
     def judge_native(backend, call, label, n, specs, build=build_native, fixed_key=None, allow_reject=()):
         names = [sp[0] for sp in specs]
-        inp = {"backend": backend, "n": n, "call": label, "native_gates": [(g, q, [repr(x) for x in ps]) for g, q, ps, _ in specs]}
+        inp = {"backend": backend, "n": n, "call": label, "native_gates": [(g, q, [repr(x) for x in ps]) + ((f"pauli_ids={ex[0]}" + (" (gate object)" if ex[1] else ""),) if isinstance(ex, tuple) else ())
+                                                                                 for g, q, ps, ex in specs]}
         try:
             res = dist(backend, call, n, specs, build)
         except Exception as e:  # noqa: BLE001 – a quirk of the backend or of this generator, not of quri-parts
@@ -1434,7 +1482,8 @@ def validate_native_reverse(ctx: Ctx, rounds: int):
             for bad, bd in bads or [("circuit", d)]:
                 detail = ".rounding" if bd < 1e-4 else ""
                 ctx.witness(fixed_key or finding_key(backend, "native-reverse", bad.split(":")[0], detail),
-                            f"circuit_from_{backend} ({label}) of a native circuit differs from the backend's own unitary by {d:.3g}", inp)
+                            f"circuit_from_{backend} ({label}) of a native circuit differs from the backend's own unitary by {d:.3g}"
+                            + (f" [{res[2]}]" if len(res) > 2 and str(res[2]).startswith("malformed") else ""), inp)
 
     for backend in uni:
         try:
@@ -1459,6 +1508,12 @@ def validate_native_reverse(ctx: Ctx, rounds: int):
                     judge_native(backend, rev, "default", 3, specs, allow_reject=allow)
         for g, ps in PINNED_NATIVE.get(backend, []):
             judge_native(backend, rev, "default", 2, [(g, [rng.randrange(2)], list(ps), None)], allow_reject=allow)
+        if backend == "qulacs":  # an identity factor at every position, a non-identity factor after it; also the empty and the all-identity string
+            for ids in ([0, 2, 3], [1, 0, 3], [2, 1, 0], [0, 0, 3], [0, 0, 0], []):
+                for obj in (False, True):
+                    tq = [2, 0, 1][:len(ids)]
+                    judge_native(backend, rev, "default", 3, [("paulis", tq, [], (ids, obj))], allow_reject=allow)
+                    judge_native(backend, rev, "default", 3, [("paulirots", tq, [rng.choice([0.7, 0.0, math.pi])], (ids, obj))], allow_reject=allow)
         for r in range(rounds):
             n = rng.randint(1, 3)
             specs = native_specs(backend, rng, n, rng.randint(1, 5))
